@@ -178,8 +178,9 @@ func (g *gen) emitNestStub2(xs []*xf) {
 	st = &stub2{sphReply: c.Rng.Intn(2) == 0}
 	tc = wrapCollider2(xs, st)
 	got1 := tc.CircleCollision(ctr, rad)
-	c.Emit(fmt.Sprintf("c05 nest.sphin2 %s %s %s %s", tok, p2s(ctr), rs(rad), bstr(st.sphReply)),
-		p2s(st.sphC[0])+" "+rs(st.sphR[0])+" "+bstr(got1))
+	if seen, ok := sphSeen2(c, st, xs, ctr, rad, got1); ok {
+		c.Emit(fmt.Sprintf("c05 nest.sphin2 %s %s %s %s", tok, p2s(ctr), rs(rad), bstr(st.sphReply)), seen)
+	}
 	c.Emit(fmt.Sprintf("c05 nest.cbounds2 %s %s %s", tok, p2s(st.Min()), p2s(st.Max())), p2s(tc.Min())+" "+p2s(tc.Max()))
 }
 
@@ -236,8 +237,12 @@ func (g *gen) emitNestColl2(xs []*xf, col model2d.Collider, cname string, ir mod
 	}))
 	q := g.inBox2(col.Min().AddScalar(-1), col.Max().AddScalar(1))
 	rad := math.Abs(g.dy())
+	if g.c.Rng.Intn(2) == 0 {
+		q, rad = g.circleOutside2(col)
+	}
 	iq := applyAll2(xs, q)
 	orad := applyAll2(xs, q.Add(model2d.X(rad))).Dist(iq)
+	g.statCircle2("nest.sphc2", col, q, rad, orad)
 	want := col.CircleCollision(q, rad)
 	c.Stat("nest.sphc2.inner."+bstr(want), 1)
 	c.Emit(fmt.Sprintf("c05 nest.sphc2 %s %s %s %s %s %s", tok, p2s(iq), rs(orad), p2s(q), rs(rad), bstr(want)),
